@@ -181,6 +181,17 @@ def check(repo, rep, tier):
     for name, fn in combinator_functions(mod):
         labels |= rg.check_combinator('ja', mod, name, fn, rep, R)
     reg = rg.check_dispatch('ja', mod, rep, 'R4.1')
+    from .. import rules_unif as ru
+    pur = ru.Purity(repo, rep, 'R4.1')
+    ab = mod.get('apply_binary_rules')
+    mutated = pur.analyse(mod, ab)
+    rep.check(not mutated and not ab.decorator_list, 'R4.1', '%s:%s apply_binary_rules' % (mod.rel, ab.lineno), '%s:apply_binary_rules:no-memo' % mod.rel,
+              'apply_binary_rules keeps no state: each answer is computed from its own arguments', 'apply_binary_rules modifies %s: an answer may come from an earlier call' % sorted(mutated))
+    from . import c06
+    c06.r_scan(repo, rep, 'R4.1')
+    c06.r_scan_deep(repo, rep, 'R4.1')
+    c06.r_feature_loop(repo, rep, 'R4.1')
+    c06.r_feature_relations(repo, rep, 'R4.1')
     r_unary_labels(repo, rep)
     rep.floor('registered Japanese combinators', len(reg), 11)
     rep.floor('schema symbols produced', len({s for _, s in labels if s in rg.SCHEMAS['ja']}), 10)
